@@ -20,6 +20,7 @@ _op = st.one_of(
     st.tuples(st.just("create_comment"), st.sampled_from(["CA", "CB"])).map(list),
     st.tuples(st.just("create_lengths"), st.sampled_from(["CA", "CB", "CC"])).map(list),
     st.tuples(st.just("merge"), st.integers(0, 5)).map(list),
+    st.tuples(st.just("merge"), st.integers(0, 5)).map(list),
     st.tuples(st.just("update"), st.integers(0, 9)).map(list),
     st.tuples(st.just("count")).map(list),
     st.tuples(st.just("info_tables")).map(list),
@@ -48,6 +49,15 @@ def _case(draw, tier):
     maxops = 3 if k == 2 else 2
     alphabet = draw(st.sampled_from(["atomic", "all"]))
     scripts = [draw(st.lists(_op_atomic if alphabet == "atomic" else _op, min_size=1, max_size=maxops)) for _ in range(k)]
+    if draw(st.integers(0, 3)) == 0:
+        # every session runs the same kind of multi-step statement (two MERGEs, two connects creating the same database, ...): the
+        # interleavings in which their internal steps cross are the ones no reader is needed for
+        kind = draw(st.sampled_from(["merge", "connect"] if alphabet == "atomic" else ["merge", "merge", "connect", "create_comment", "create_lengths"]))
+        if kind == "merge" and alphabet == "atomic":
+            alphabet = "all"
+        for sc in scripts:
+            first = {"merge": ["merge", 0], "connect": ["connect", "DBX", draw(st.sampled_from(["SX", "SY"]))], "create_comment": ["create_comment", "CA"], "create_lengths": ["create_lengths", "CA"]}[kind]
+            sc[0] = first
     nsched = 6 if tier == "quick" else 16
     schedules = [draw(st.lists(st.integers(0, k - 1), min_size=2, max_size=40)) for _ in range(nsched)]
     return {"scripts": scripts, "schedules": schedules}
@@ -109,7 +119,8 @@ def _setup(fs, k: int) -> list[dict]:
     states = []
     for sid in range(k):
         cur.execute(f"CREATE TABLE TGT{sid} (K INT, V VARCHAR)")
-        cur.execute(f"INSERT INTO TGT{sid} VALUES (1, 'old'), (9, 'nine')")
+        # targets differ per session, so that one session's MERGE working from another's intermediate result shows
+        cur.execute(f"INSERT INTO TGT{sid} VALUES ({1 + sid}, 'old{sid}'), ({9 - sid}, 'nine{sid}')")
         states.append({"default": fs.connect("DB0", "S0")})
     return states
 
@@ -217,12 +228,17 @@ def run_schedules(case, ctx: Ctx) -> None:
                         for b, o_ in enumerate(so):
                             serial_at.setdefault((a, b), set()).add(repr(o_))
                 errs = sorted({o[1] for a, so in enumerate(outs) for b, o in enumerate(so) if o and o[0] == "err" and repr(o) not in serial_at.get((a, b), ())})
+                # whose outcome is it that no serial order produces at that position: a statement that only reads (it looked at another
+                # session's multi-step statement half-way) or one that writes (its own effect or counts are wrong)?
+                READS = {"count", "info_tables", "info_columns", "show_tables", "describe"}
+                odd = sorted({scripts[a][b][0] for a, so in enumerate(outs) for b, o in enumerate(so) if repr(o) not in serial_at.get((a, b), ())})
+                who = "no-single-outcome" if not odd else ("reader-outcome" if all(k_ in READS for k_ in odd) else "writer-outcome:" + "+".join(k_ for k_ in odd if k_ not in READS))
                 serial_errs = set()
                 what = "statement-outcomes" if not outs_ok else ("final-state" if not final_ok else "combination")
                 writers = [k_ for k_ in kinds if k_ in ("create_comment", "create_lengths", "merge")]
                 disc = "multi-step-writer-present" if writers else ("connect-present" if "connect" in kinds else "single-step-only")
                 ctx.fail(
-                    f"C19|not-serialisable|{what}|{('raises:' + '+'.join(errs)) if errs else 'no-error'}|{disc}",
+                    f"C19|not-serialisable|{what}|{('raises:' + '+'.join(errs)) if errs else 'no-error'}|{disc}|{who}",
                     f"scripts {scripts} schedule {schedule} (engine-call trace {tr}): outcomes {outs}; no serial order of {len(refs)} distinct serial results matches",
                 )
                 return
